@@ -43,6 +43,7 @@ structure Pc where
   op : String                      -- "obs" | "flush" | "collect" | "count" | "sum"
   task : Option Task               -- the proof model's task this call currently is (`count`: none)
   cur : Option Int := none         -- a compare-exchange loop on a sum cell has loaded this value
+  failed : Bool := false           -- `cur` is the value a FAILED compare-exchange reported: the loop may also load again
   stage : Nat := 0                 -- `sum`: 0 lock held, 1 hot shard known, 2 value read
   b : Bool := false                -- `sum`: the shard it learned
   val : Int := 0                   -- `sum`: the value it read
@@ -80,16 +81,22 @@ def showSnap (k : Nat) (ov : Nat) (taken : Cells) : String :=
   let cum := ((List.range k).foldl (fun (acc : List Nat × Nat) i => (acc.1 ++ [acc.2 + (taken i).toNat], acc.2 + (taken i).toNat)) ([], 0)).1
   s!"{ov}/{hexStr (f64OfInt (taken k))}/{"+".intercalate (cum.map toString)}"
 
+/-- the load of a compare-exchange loop on the sum cell of shard `b`, which holds `x` -/
+def casLoad (e : Ev) (c : Hp.St) (pc : Pc) (b : Bool) (x : Int) : Except String Res :=
+  guard (e.k == "L" && parseLoc e.loc == .sum b && ordGe e.ord "Acquire" && sumRange x && e.res == f64OfInt x)
+    s!"sum add: expected load Acquire of shard {b} sum -> {hexStr (f64OfInt x)}"
+    (.ok (c, { pc with cur := some x, failed := false }, none))
+
 /-- a compare-exchange loop adding `a` to the sum cell `cell` of shard `b` (load, then cas with retry).
-    `onOk` is what a successful exchange does to the shared state and the task. -/
+    `onOk` is what a successful exchange does to the shared state and the task. After a failed
+    exchange both ways of writing the loop are accepted: loading again, or retrying at once with the
+    value the failed exchange reported (`Err(v) => cur = v`). -/
 def casLoop (e : Ev) (c : Hp.St) (pc : Pc) (b : Bool) (cell : Nat) (a : Int) (onOk : Res) : Except String Res :=
   let x := (c.sh b).cell cell
   match pc.cur with
-  | none =>
-    guard (e.k == "L" && parseLoc e.loc == .sum b && ordGe e.ord "Acquire" && sumRange x && e.res == f64OfInt x)
-      s!"sum add: expected load Acquire of shard {b} sum -> {hexStr (f64OfInt x)}"
-      (.ok (c, { pc with cur := some x }, none))
+  | none => casLoad e c pc b x
   | some cur =>
+    if pc.failed && e.k == "L" then casLoad e c pc b x else
     guard (e.k == "C" && parseLoc e.loc == .sum b && ordGe e.ord "Release" && sumRange cur && sumRange (cur + a) &&
            e.a == f64OfInt cur && e.b == f64OfInt (cur + a))
       s!"sum add: expected cas Release {hexStr (f64OfInt cur)} -> {hexStr (f64OfInt (cur + a))}" <|
@@ -97,9 +104,7 @@ def casLoop (e : Ev) (c : Hp.St) (pc : Pc) (b : Bool) (cell : Nat) (a : Int) (on
         guard (decide (x = cur)) "sum cas succeeded on a changed value" (.ok onOk)
       else
         guard (sumRange x && e.res == f64OfInt x) "failed sum cas reports a wrong current value"
-          (.ok (c, { pc with cur := none }, none))
-
-
+          (.ok (c, { pc with cur := some x, failed := true }, none))
 
 def plainR (cuts : Cuts) (r : Except String Res) : Except String (Res × Cuts) :=
   match r with | .ok x => .ok (x, cuts) | .error m => .error m
@@ -120,7 +125,7 @@ def evStep (k : Nat) (c : Hp.St) (cuts : Cuts) (e : Ev) (pc : Pc) : Except Strin
   | some (.obsRun o b ((cell, a) :: rest)) =>
     let x := (c.sh b).cell cell
     let c' : Hp.St := { c with sh := modSh c.sh b (fun sd => { sd with cell := setCell sd.cell cell (sd.cell cell + a) }) }
-    let pc' : Pc := { pc with task := some (.obsRun o b rest), cur := none }
+    let pc' : Pc := { pc with task := some (.obsRun o b rest), cur := none, failed := false }
     if cell < k then
       plain <| guard (e.k == "A" && parseLoc e.loc == .bkt b cell && ordGe e.ord "Relaxed" && e.a == u64OfInt a && e.res == u64OfInt x)
         s!"{pc.op}: expected fetch_add Relaxed {a} on bucket {cell} of shard {b} -> {x}"
@@ -172,7 +177,7 @@ def evStep (k : Nat) (c : Hp.St) (cuts : Cuts) (e : Ev) (pc : Pc) : Except Strin
   | some (.colMove cold ov (.addHot cell :: todo) taken S) =>
     let x := (c.sh (!cold)).cell cell
     let r : Res := ({ c with sh := modSh c.sh (!cold) (fun sd => { sd with cell := setCell sd.cell cell (sd.cell cell + taken cell) }) },
-                    { pc with task := some (.colMove cold ov todo taken S), cur := none }, none)
+                    { pc with task := some (.colMove cold ov todo taken S), cur := none, failed := false }, none)
     if cell < k then
       plain <| guard (e.k == "A" && parseLoc e.loc == .bkt (!cold) cell && ordGe e.ord "Relaxed" && e.a == u64OfInt (taken cell) && e.res == u64OfInt x)
         s!"collect: expected fetch_add Relaxed {taken cell} on bucket {cell} of shard {!cold} -> {x}" (.ok r)
